@@ -141,6 +141,7 @@ def one_sequence(ctx, rng, memo):
     ctx.case(g + b'|' + c + b'|' + p, nontrivial=(b'\x1a' in p or b'\x1c' in p or b'\x1d' in p))
     if rng.random() < 0.003:
         ctx.sample({'gamma': g.hex()[:120], 'claim': c.hex()[:120], 'proof': p.hex()[:300], 'calls': len(d.journal)})
+    return ser, (g, c, p), [c_ for c_, _ in claims]
 
 
 def shard(ctx):
